@@ -436,7 +436,11 @@ func (c *SimCache) Get(ctx context.Context, key []byte) ([]byte, error) {
 // Set implements IssuanceChainCache. It is called from detached goroutines of
 // the code under test, so its seam key uses the content (hash prefix).
 func (c *SimCache) Set(ctx context.Context, key []byte, chain []byte) error {
-	d, err := c.S.Seam(nil, "cachefill", "cache.Set", fmt.Sprintf("%x", key[:min(6, len(key))]), key)
+	party := "cachefill"
+	if op := opFrom(ctx); op != nil {
+		party = "cachefill:" + op.Party // the detached fill inherits the request's context values
+	}
+	d, err := c.S.Seam(nil, party, "cache.Set", fmt.Sprintf("%x", key[:min(6, len(key))]), key)
 	if err != nil {
 		return err
 	}
